@@ -4,6 +4,7 @@ package jsoac
 
 import (
 	"encoding/json"
+	"fmt"
 
 	schema "github.com/jsightapi/jsight-schema-core"
 
@@ -13,16 +14,33 @@ import (
 type JSOAC struct {
 	root        Node
 	description *string
+
+	// err why the schema could not be converted (it is returned by MarshalJSON).
+	err error
 }
 
 func New(j *jschema.JSchema) *JSOAC {
 	return NewFromASTNode(j.ASTNode)
 }
 
-func NewFromASTNode(astNode schema.ASTNode) *JSOAC {
-	return &JSOAC{
-		root: newNode(astNode),
+func NewFromASTNode(astNode schema.ASTNode) (o *JSOAC) {
+	o = &JSOAC{}
+	// A schema the converter has no answer for must not take the caller down:
+	// the reason is kept and returned by MarshalJSON.
+	defer func() {
+		if r := recover(); r != nil {
+			o.err = panicToError(r)
+		}
+	}()
+	o.root = newNode(astNode)
+	return o
+}
+
+func panicToError(r any) error {
+	if e, ok := r.(error); ok {
+		return e
 	}
+	return fmt.Errorf("%v", r)
 }
 
 func (o *JSOAC) SetDescription(s string) {
@@ -30,6 +48,14 @@ func (o *JSOAC) SetDescription(s string) {
 }
 
 func (o JSOAC) MarshalJSON() (b []byte, err error) {
+	if o.err != nil {
+		return nil, o.err
+	}
+	defer func() {
+		if r := recover(); r != nil {
+			b, err = nil, panicToError(r)
+		}
+	}()
 	if o.description != nil {
 		o.root.SetNodeDescription(*o.description)
 	}
